@@ -54,7 +54,7 @@ theorem C15_highS_sig_normalised :
 `decodeBytes` calls in the current sidecar/tlv.go, in the same order and with the same decoder kinds,
 and the serialisers write the same set of types. -/
 theorem C15_record_tables_match_source :
-    (ticketRecs ⟨true, true, 0⟩).map (·.typ) = Pool.Gen.C15.DeserializeTicketTypes ∧
+    (ticketRecs ⟨true, true, false, 0⟩).map (·.typ) = Pool.Gen.C15.DeserializeTicketTypes ∧
     offerRecs.map (·.typ) = Pool.Gen.C15.deserializeOfferTypes ∧
     recipientRecs.map (·.typ) = Pool.Gen.C15.deserializeRecipientTypes ∧
     orderRecs.map (·.typ) = Pool.Gen.C15.deserializeOrderTypes ∧
